@@ -323,8 +323,10 @@ def run(ctx):
                             fi = [a for a in par.ancestors(fl) if isinstance(a, ast.If)]
                             set_on_missing = bool(fi) and isinstance(fi[0].test, ast.UnaryOp) and isinstance(fi[0].test.op, ast.Not) and fi[0].test.operand is te and par.branch_of(fl, fi[0]) == "body"
                             set_on_present = bool(fi) and fi[0].test is te and par.branch_of(fl, fi[0]) == "body"
-                            init_false = [s for s in accept.body if isinstance(s, (ast.Assign, ast.AnnAssign)) and txt(s.targets[0] if isinstance(s, ast.Assign) else s.target) == t.id
-                                          and isinstance(s.value, ast.Constant) and s.value.value is False]
+                            # reset once per clique: inside the acceptance loop but outside any inner loop
+                            init_false = [s for s in ast.walk(accept) if isinstance(s, (ast.Assign, ast.AnnAssign)) and txt(s.targets[0] if isinstance(s, ast.Assign) else s.target) == t.id
+                                          and isinstance(s.value, ast.Constant) and s.value.value is False and par.loops_of(s) and par.loops_of(s)[0] is accept
+                                          and cfg.dominates(s, par.stmt_of(fl) if par.loops_of(fl)[0] is accept else par.loops_of(fl)[-2 if len(par.loops_of(fl)) > 1 else 0])]
                             if set_on_missing and neg and init_false:
                                 o.holds(fn, guard, "accepted only when no pair of the clique is missing from the working copy (flag reset per clique)")
                             elif set_on_missing and not neg:
